@@ -137,6 +137,30 @@ ENGINES = [
      "kind_free_text": "request driver over the five integrations with a spy provider and recording services"},
 ]
 
+# additions made while the checks were strengthened against seeded changes (DESIGN.md §8.5)
+EXTRA = {
+ "C01": "Also: Remove/re-Add tail steps, intermediate Builds of the same collection, cross-scope concurrent first resolutions.",
+ "C02": "Also: failing first constructions inside the window, cross-scope rounds, and initializers registered under a name (resolved by key and as a dependency, sequentially and from 2-8 goroutines) - still one run per scope.",
+ "C03": "Also: identity-served-twice across groups/keys, concurrent sections across scopes.",
+ "C04": "Also: In structs with embedded structs (promoted fields stay untouched), value-equal instances told apart by pointer, collections used, extended and built again (optional dependency / group member registered after the first Build).",
+ "C05": "Also: verdict queries between incremental adds and after every rejected add (stale caches).",
+ "C06": "Also: intermediate Builds; sort-vs-mutation concurrency on the graph.",
+ "C07": "Also: directed multi-identity + Remove specs, intermediate Builds, optional / alias / group dependency forms.",
+ "C08": "Also: Remove of the first sibling of a multi-output registration, required keyed dependencies on the built-in types (never satisfiable).",
+ "C09": "Also: shared-code constructors under overlap, provider.Close overlapping CreateScope on a still-open scope, worker watchdog for operations that never return.",
+ "C10": "Also: BuildWithContext cancelled from inside each Build-time invocation, aliases / multi-alias registrations, value-equal instances (tracked by pointer), disposables handed out by value (handle 0, zero-valued struct), Close overlapping in-flight constructions.",
+ "C11": "Also: close-vs-close overlaps (leaf Close or context watcher parked inside each disposable Close while parent / grandparent / provider is closed; top-level scope being closed vs provider.Close) and the first-resolution race.",
+ "C12": "Also: derived-context children, slow Close hooks, the close-is-complete clause for the last-returning call of a group of overlapping Closes, graceful-shutdown plans.",
+ "C13": "Also: ancestor Close overlapping an in-flight Close of a descendant (probe at the return of the ancestor's Close), descendant-survives-close after overlapping CreateScope.",
+ "C14": "Also: Close-error variants, contexts already done at creation, and a create-vs-close race workload (a parent's Close racing the creation of its children under contention on the provider's bookkeeping; weak-pointer oracle with the provider still open).",
+ "C15": "Also: constructor error values of several shapes (stateless zero-valued struct / int errors, wrapped, chains containing godi's own BuildError), constructors with concrete error result types, concurrent waiters behind a failing construction.",
+ "C16": "Also: application-scope request contexts, a second differently configured ScopeMiddleware/Handle instance per case, and the scope-closed-at-unwind clause (evaluated at the moment the request leaves the middleware chain, aborts included).",
+ "C17": "Also: result-object fields with both name and group (must be rejected), RemoveKeyed with nil / empty-string / non-string keys.",
+ "C18": "Also: reserved types in every derived registration form (As, multi-return, result-object fields incl. grouped), concurrent sections, nil-context children inheriting cancellation and deadline.",
+ "C19": "Also: deferred adds in batches (removes / clears while pending, one completing DetectCycles), concurrent sort-vs-mutation.",
+ "C20": "Also: caller slice reuse, RemoveKeyed key values that are not names, the same module tree applied to several fresh collections concurrently.",
+}
+
 def main():
     props = [json.loads(l) for l in open(os.path.join(VERIF, "properties.jsonl")) if l.strip()]
     ids = [p["id"] for p in props]
@@ -152,7 +176,7 @@ def main():
             "evidence_file": f"/verif/evidence/{pid}.json",
             "replay_cmd_template": "./check replay {path}",
             "engine": c["engine"],
-            "level_claimed": {"category": c["level"], "text": c["text"], "design_ref": c["ref"]},
+            "level_claimed": {"category": c["level"], "text": c["text"] + " " + EXTRA.get(pid, ""), "design_ref": c["ref"]},
             "level_note": c["note"],
             "technique": c["technique"],
         })
